@@ -73,6 +73,9 @@ type Closure struct {
 	Macro  bool
 }
 
+// AtomCell is the payload of an atom value.
+type AtomCell struct{ V *canon.Node }
+
 type BuiltinFn func(it *Interp, args []*canon.Node) (*canon.Node, *Err)
 
 type Builtin struct {
